@@ -281,6 +281,11 @@ func (c *Chaos) genTx() {
 	case w < 83: // app transfer to a fresh key
 		k := c.pick(c.appKeys)
 		nk := KeyFresh0 + 300 + r.Intn(40)
+		if r.Intn(4) == 0 { // onto a key that already is (or was) an application: staked, unstaking or gone
+			if o := c.pick(c.appKeys); o != k {
+				nk = o
+			}
+		}
 		c.add("app_transfer", k, MsgAppStake(Key(nk), nil, 0), TxMeta{Target: AddrHex(k), To: AddrHex(nk)})
 		c.appKeys = append(c.appKeys, nk)
 	case w < 89: // DAO
